@@ -34,6 +34,7 @@ RULE += ("; round 6: axis limits 0.35, 0.3, 0.1 (regions partly or wholly outsid
 RULE += ("; round 7: all documented arguments given positionally; label lists with a repeated name; complexity plots with word sizes 1, 2, 4")
 RULE += ("; round 8: axis limits just below a multiple of 0.1 (0.395, 0.995, 0.299); linear plots of objects with phosphosites set; an unlabelled plot after a labelled one on the same object")
 RULE += ("; round 9: an axis limit within 0.01 above the marker of a labelled plot; a 130-character label")
+RULE += ("; round 10: '$', '%', '#', '&', '_', '^', braces in titles and labels")
 EXHAUSTIVE = {"quick": False, "thorough": False}
 EXHAUSTIVE_NOTE = {"quick": "region agreement: all (n+,n-,N) with N <= 40 under 4 limit settings",
                    "thorough": "region agreement: all (n+,n-,N) with N <= 90 under 4 limit settings"}
